@@ -2,6 +2,7 @@ package main
 
 import (
 	"fmt"
+	"go/token"
 	"strings"
 
 	"golang.org/x/tools/go/ssa"
@@ -10,7 +11,7 @@ import (
 func init() {
 	register(&propDef{
 		ID: "C17", Level: "other", Run: withShared(runC17, share{"C08", runC08, roleConstruct("positions-from-search", "ring builder")}),
-		Explanation: "In the regular branch of the dealer move the seats searched are the clockwise ring starting at the current dealer with the dealer itself dropped (the button never stays put while somebody else can play), or the full ring from seat 0 when there is no dealer yet; the new dealer is the search's result; the playable search returns the first accepted element of its argument in order together with its index (it never skips a playable seat) and (nil, -1) only after a full pass; the seats passed by the button are re-activated up to, not including, the new dealer; Next returns the insufficient-players error when no dealer is found, and the blind assignment that follows is only reached with at least two playable seats or checked search results (the sentinel rule shared with C18). Does NOT decide never-backwards, or that waiting players are let in first, over histories.",
+		Explanation: "In the regular branch of the dealer move the seats searched are the clockwise ring starting at the current dealer with the dealer itself dropped (the button never stays put while somebody else can play), or the full ring from seat 0 when there is no dealer yet; the new dealer is the search's result; the playable search returns the first accepted element of its argument in order together with its index (it never skips a playable seat) and (nil, -1) only after a full pass; the seats passed by the button are re-activated up to, not including, the new dealer; Next returns the insufficient-players error when no dealer is found, and the blind assignment that follows is only reached with at least two playable seats or checked search results (the sentinel rule shared with C18). The ring is clockwise with wrap (shared with C08); the re-activation walk stops at the seat the search found; the dealer field is stored only while moving to the next hand or by an API that is given the button. Does NOT decide never-backwards, or that waiting players are let in first, over histories.",
 		Trusted:     commonTrusted,
 		Assumptions: []string{"the ring builder returns the clockwise order from its start id (checked under C08)", "the playable predicate is occupied AND active AND not reserved (checked under C08)"},
 		NotCovered:  "never moves backwards; re-activation of passed seats as a history property; waiting players being let in first",
@@ -156,6 +157,20 @@ func runC17(c *Ctx) {
 					if len(ps.storesTo("seat_manager.Seat.IsActive")) > 0 {
 						bad2 = append(bad2, "the new dealer's own seat is modified while passing")
 					}
+					// the walk stops at the seat the search just found, not at some other seat
+					at := ps.Conds[0].V.At
+					okStop := false
+					for _, side := range []string{at.L, at.R} {
+						if search != nil && strings.HasPrefix(side, fnKey(search)+"(") {
+							okStop = true
+						}
+						if strings.HasPrefix(side, "loopval:") && isSearchHit(x.fn, strings.TrimPrefix(side, "loopval:"), search) {
+							okStop = true
+						}
+					}
+					if !okStop {
+						bad2 = append(bad2, "the re-activation walk stops at ["+at.String()+"], not at the dealer the search just found")
+					}
 				}
 			}
 			if !hasStop {
@@ -233,7 +248,9 @@ func runC17(c *Ctx) {
 					nHit++
 					okRet := false
 					for _, fp := range fpaths {
-						if len(fp.Ret) == 2 && hasCond(fp, func(x *Val) bool { return x.K == KAtom && x.At.Op == "b" && strings.HasSuffix(x.At.L, "exit→"+strings.TrimPrefix(ps.End, "exit:")) }) {
+						if len(fp.Ret) == 2 && hasCond(fp, func(x *Val) bool {
+							return x.K == KAtom && x.At.Op == "b" && strings.HasSuffix(x.At.L, "exit→"+strings.TrimPrefix(ps.End, "exit:"))
+						}) {
 							idx := fp.Ret[1].String()
 							if strings.HasPrefix(idx, "loopval:") && fp.Ret[0].String() == "param:"+search.Params[1].Name()+"["+idx+"]" {
 								if ci := analyseCounting(l); ci.OK && idx == "loopval:"+search.Name()+"."+ci.Phi.Name() {
@@ -326,6 +343,38 @@ func runC17(c *Ctx) {
 		}
 		c.check(len(bad4) == 0 && nRefuse > 0, "refusal", fnKey(next), p.FnPos(next), "no dealer found: refused with the insufficient-players error before any blind assignment", "Next does not refuse correctly", uniq(bad4, 3)...)
 	}
+	// ---- dealer-owner: the button is remembered between hands in the dealer field, and the next
+	// search starts from it. Only the move to the next hand (and the constructor) may store it: a
+	// seat operation that clears or moves it makes the next search start from the wrong seat
+	{
+		tree := ix.Reachable(next)
+		var bad5 []string
+		nW := 0
+		for _, w := range ix.Writers("seat_manager.SeatManager.dealer") {
+			nW++
+			if tree[w] || (w.Signature.Recv() == nil && strings.HasPrefix(w.Name(), "New")) {
+				continue
+			}
+			if len(ix.Callers(w)) == 0 && !token.IsExported(w.Name()) {
+				continue // dead helper
+			}
+			// explicit positioning by the caller (SetDealer(id), ApplyStates(state)): the new button
+			// is an argument, not something the seat manager decides
+			explicit := false
+			for _, b := range w.Blocks {
+				for _, in := range b.Instrs {
+					if st, ok := in.(*ssa.Store); ok && accessKey(st.Addr) == "seat_manager.SeatManager.dealer" && fromArgument(st.Val, w, 0) {
+						explicit = true
+					}
+				}
+			}
+			if explicit {
+				continue
+			}
+			bad5 = append(bad5, fnKey(w)+" stores the dealer outside the move to the next hand")
+		}
+		c.check(len(bad5) == 0 && nW > 0, "dealer-owner", "SeatManager.dealer", p.FnPos(mover), "the dealer field is stored only while moving to the next hand", "the remembered button can be changed between hands", uniq(bad5, 3)...)
+	}
 	// shared sentinel rule (C18/sentinels): blind assignment only with checked / count-guarded searches
 	runSentinels(c, "refusal")
 }
@@ -360,6 +409,45 @@ func isSearchHit(fn *ssa.Function, qualified string, search *ssa.Function) bool 
 				if call, ok := ex.Tuple.(*ssa.Call); ok && call.Common().StaticCallee() == search {
 					return true
 				}
+			}
+		}
+	}
+	return false
+}
+
+// fromArgument: the value is selected by an argument of fn other than the receiver (a seat looked
+// up by a parameter, a field of a parameter).
+func fromArgument(v ssa.Value, fn *ssa.Function, depth int) bool {
+	if depth > 8 {
+		return false
+	}
+	switch x := v.(type) {
+	case *ssa.Parameter:
+		return !(fn.Signature.Recv() != nil && len(fn.Params) > 0 && fn.Params[0] == x)
+	case *ssa.Lookup:
+		return fromArgument(x.Index, fn, depth+1)
+	case *ssa.Extract:
+		return fromArgument(x.Tuple, fn, depth+1)
+	case *ssa.UnOp:
+		return fromArgument(x.X, fn, depth+1)
+	case *ssa.FieldAddr:
+		return fromArgument(x.X, fn, depth+1)
+	case *ssa.Field:
+		return fromArgument(x.X, fn, depth+1)
+	case *ssa.IndexAddr:
+		return fromArgument(x.Index, fn, depth+1) || fromArgument(x.X, fn, depth+1)
+	case *ssa.Index:
+		return fromArgument(x.Index, fn, depth+1) || fromArgument(x.X, fn, depth+1)
+	case *ssa.Convert:
+		return fromArgument(x.X, fn, depth+1)
+	case *ssa.ChangeType:
+		return fromArgument(x.X, fn, depth+1)
+	case *ssa.BinOp:
+		return fromArgument(x.X, fn, depth+1) || fromArgument(x.Y, fn, depth+1)
+	case *ssa.Phi:
+		for _, e := range x.Edges {
+			if fromArgument(e, fn, depth+1) {
+				return true
 			}
 		}
 	}
